@@ -42,6 +42,53 @@ def consistent(ctx, name, Fd, i, y, case, what):
     return ok
 
 
+def check_maxvol_unpruned(ctx, rng, quick):
+    """optima_tt_maxvol with at least as many candidates as tensor elements (nothing may be pruned, in either sweep and in
+    every mode of combining them): the reported extremes are the true ones.  Generic cores whose ranks every unfolding
+    carries; one mode (first or last) much longer than the ranks plus the routine's default candidate count."""
+    for t in range(30 if quick else 300):
+        d = int(rng.integers(2, 5))
+        n = [int(v) for v in rng.integers(1, 5, size=d)]
+        if t % 3 == 0 or t % 4 == 2:
+            n[-1] = int(rng.integers(12, 60))
+        elif t % 3 == 1:
+            n[0] = int(rng.integers(12, 60))
+        r = [1] + [int(v) for v in rng.integers(1, 4, size=d - 1)] + [1]
+        for b in range(1, d):
+            r[b] = max(1, min(r[b], int(np.prod(n[:b])), int(np.prod(n[b:]))))
+        for b in range(1, d):
+            r[b] = max(1, min(r[b], r[b - 1] * n[b - 1]))
+        for b in range(d - 1, 0, -1):
+            r[b] = max(1, min(r[b], r[b + 1] * n[b]))
+        Y = [rng.normal(size=(r[i], n[i], r[i + 1])) for i in range(d)]
+        if t % 4 == 3:
+            Y = [np.round(2 * G) + (G > 0) for G in Y]        # small integers: ties
+        elif t % 4 == 2:
+            # all entries positive: the minimum sits in the slices of smallest norm, the ones a volume-based selection ranks last
+            Y = [rng.uniform(0.5, 1.5, size=G.shape) for G in Y]
+        Fd = F.dense(Y)
+        if not np.any(Fd):
+            continue
+        deficient = any(np.linalg.matrix_rank(Fd.reshape(int(np.prod(n[:b])), -1)) < r[b] for b in range(1, d))
+        for how in ('smart', 'l2r', 'r2l', 'both'):
+            for k in (Fd.size, Fd.size + 7):
+                case = {'n': n, 'r': r, 'how': how, 'k': int(k), 'seed_t': t}
+                ctx.case(key=('maxvol-unpruned', tuple(n), tuple(r), how, int(k), t), nontrivial=max(r) >= 2)
+                try:
+                    imin, ymin, imax, ymax = teneva.optima_tt_maxvol([G.copy() for G in Y], int(k), how=how)
+                except Exception as ex:
+                    sig = 'optima_tt_maxvol:singular' if (type(ex).__name__ == 'LinAlgError' and deficient) else 'optima_tt_maxvol:raises'
+                    ctx.violation(sig, 'optima_tt_maxvol raised %s: %s' % (type(ex).__name__, ex), case=case)
+                    continue
+                c1 = consistent(ctx, 'optima_tt_maxvol', Fd, imin, ymin, case, 'optima_tt_maxvol(%s, k=%d) min' % (how, k))
+                c2 = consistent(ctx, 'optima_tt_maxvol', Fd, imax, ymax, case, 'optima_tt_maxvol(%s, k=%d) max' % (how, k))
+                if c1 and c2:
+                    tol = 1e-9 * max(1., float(np.abs(Fd).max()))
+                    ctx.check(abs(float(ymax) - Fd.max()) <= tol and abs(float(ymin) - Fd.min()) <= tol, 'optima_tt_maxvol:unpruned',
+                              'optima_tt_maxvol(how=%s, k=%d) on a tensor of shape %s (ranks %s, %d elements): reported min %r / max %r, true %r / %r'
+                              % (how, k, n, r, Fd.size, float(ymin), float(ymax), float(Fd.min()), float(Fd.max())), case=case)
+
+
 def run(ctx):
     ctx.rule = ('cases = (integer tensor, beam width k) emitted by TLC with all admissible candidate sets x routines; '
                 'non-trivial = rank >= 2 with k below the number of elements, or ties')
@@ -62,6 +109,7 @@ def run(ctx):
         raise tlc.TlcError('Optima emitted nothing')
     keys = sorted(groups)
     rng = np.random.default_rng(ctx.seed)
+    check_maxvol_unpruned(ctx, np.random.default_rng(ctx.seed + 4242), quick)
     # cases in which the model says the beam can miss the optimum are the interesting ones: keep all of them
     miss = [k_ for k_ in keys if groups[k_]['r'] <= 0 and any(max(abs(v) for v in [groups[k_]['full'][_flat(groups[k_]['n'], t)] for t in cs]) < groups[k_]['maxabs'] for cs in groups[k_]['cands'])]
     missset = set(miss)
